@@ -195,7 +195,8 @@ def generate(rng, n, tier):
             seen, forms = set(), []
             for k, _ in c["ops"]:
                 absent = k.lower() not in seen
-                forms.append(rng.choice(["set", "setdefault", "update", "update_pairs"] if absent else ["set", "update", "update_pairs"]))
+                forms.append(rng.choice(["set", "setdefault", "update", "update_pairs"] + (["ctor_copy"] * 2 if not seen else [])
+                                        if absent else ["set", "update", "update_pairs"]))
                 seen.add(k.lower())
             c["forms"] = forms
         if rng.random() < 0.15:
@@ -271,9 +272,16 @@ def run_impl(case):
     p = klass() if case.get("start") is None else klass(START_FORMS[case["start"]]())
     steps = []
     forms = case.get("forms") or ["set"] * len(case["ops"])
-    for (k, v), form in zip(case["ops"], forms):
+    for j, ((k, v), form) in enumerate(zip(case["ops"], forms)):
         try:
-            if form == "setdefault":
+            if form == "ctor_copy" and j == 0 and len(p) == 0:
+                # the first field arrives through the constructor, copied from a plain (never validating)
+                # Deb822Dict: Deb822(mapping) must validate it like an assignment
+                src = deb822.Deb822Dict()
+                src[k] = v
+                p2 = klass(src)
+                p = p2
+            elif form == "setdefault":
                 p.setdefault(k, v)
             elif form == "update":
                 p.update({k: v})
